@@ -194,6 +194,77 @@ def generate(model: Model):
                     n += 1
                     break
 
+    # 14. repairs reverted: each of these takes back one guard that a `fix:` commit added; the rule written for the defect must
+    #     fire again.  Sites are located in a fresh parse of the module source (positions of the original text).
+    from sa.rules.util import pfind
+
+    def _fresh(modname):
+        mod = model.modules[modname if modname.startswith("dask_expr") else f"dask_expr.{modname}"]
+        return mod, ast.parse(mod.source)
+
+    def _drop_stmt(mod, st):
+        # replace a statement by `pass` (keeps the block well-formed)
+        return _splice(mod.source, st, "pass")
+
+    try:
+        mod, tree = _fresh("_shuffle")
+        for cdef in (x for x in tree.body if isinstance(x, ast.ClassDef) and x.name == "ShuffleBase"):
+            for fn in (x for x in cdef.body if isinstance(x, ast.FunctionDef) and x.name == "_filter_passthrough_available"):
+                for st in (x for x in fn.body if isinstance(x, ast.If) and "partitioning_index" in ast.unparse(x.test)):
+                    yield "mutant", "revert:shuffle-key-collection-guard", "R03g", mod.rel, _drop_stmt(mod, st)
+            for fn in (x for x in cdef.body if isinstance(x, ast.FunctionDef) and x.name == "_simplify_up"):
+                for st in (x for x in fn.body if isinstance(x, ast.If) and "_filtered" in ast.unparse(x.test)):
+                    yield "mutant", "revert:reduction-below-filtered-shuffle-guard", "R11f", mod.rel, _drop_stmt(mod, st)
+            for st in (x for x in cdef.body if isinstance(x, ast.Assign) and ast.unparse(x.targets[0]) == "_filter_passthrough_reorders_rows"):
+                yield "mutant", "revert:shuffle-reorders-rows-flag", "R03i", mod.rel, _splice(mod.source, st.value, "False")
+    except Exception:  # noqa: BLE001 - a vanished site is reported by the rules themselves
+        pass
+    try:
+        mod, tree = _fresh("_expr")
+        for fn in (x for x in tree.body if isinstance(x, ast.FunctionDef) and x.name == "is_valid_blockwise_op"):
+            for c in (x for x in ast.walk(fn) if isinstance(x, ast.Compare) and "_layer" in ast.unparse(x)):
+                yield "mutant", "revert:hand-written-layer-not-fusable", "R14d", mod.rel, _splice(mod.source, c, "True")
+        for fn in (x for x in tree.body if isinstance(x, ast.FunctionDef) and x.name == "is_filter_pushdown_available"):
+            for st in (x for x in fn.body if isinstance(x, ast.If) and ".frame._name" in ast.unparse(x.test)):
+                yield "mutant", "revert:filter-on-predicate-guard", "R03d", mod.rel, _drop_stmt(mod, st)
+    except Exception:  # noqa: BLE001
+        pass
+    try:
+        mod, tree = _fresh("_merge")
+        for c in (x for x in ast.walk(tree) if isinstance(x, ast.UnaryOp) and isinstance(x.op, ast.Not) and "leftsemi" in ast.unparse(x) and "broadcast_side" in ast.unparse(x)):
+            yield "mutant", "revert:leftsemi-left-broadcast", "R10f", mod.rel, _splice(mod.source, c, "True")
+    except Exception:  # noqa: BLE001
+        pass
+    try:
+        mod, tree = _fresh("_collection")
+        for cdef in (x for x in tree.body if isinstance(x, ast.ClassDef) and x.name == "FrameBase"):
+            for fn in (x for x in cdef.body if isinstance(x, ast.FunctionDef) and x.name == "divisions" and any(ast.unparse(d) == "property" for d in x.decorator_list)):
+                dec = next(d for d in fn.decorator_list if ast.unparse(d) == "property")
+                yield "mutant", "cache-on-mutable-collection:FrameBase.divisions", "R15f", mod.rel, _splice(mod.source, dec, "functools.cached_property")
+    except Exception:  # noqa: BLE001
+        pass
+    try:
+        mod, tree = _fresh("_util")
+        for fn in (x for x in tree.body if isinstance(x, ast.FunctionDef) and x.name == "_tokenize_deterministic"):
+            for st in (x for x in fn.body if isinstance(x, ast.Assign) and "_keep_dict_order" in ast.unparse(x.value) and ast.unparse(x.targets[0]) == "args"):
+                yield "mutant", "revert:dict-order-in-names", "R08e", mod.rel, _drop_stmt(mod, st)
+    except Exception:  # noqa: BLE001
+        pass
+    try:
+        mod, tree = _fresh("_merge_asof")
+        for cdef in (x for x in tree.body if isinstance(x, ast.ClassDef) and x.name == "MergeAsof"):
+            for fn in (x for x in cdef.body if isinstance(x, ast.FunctionDef) and x.name == "_additional_key_columns"):
+                for r_ in (x for x in ast.walk(fn) if isinstance(x, ast.Return)):
+                    yield "mutant", "revert:merge-asof-by-keys", "R04c", mod.rel, _splice(mod.source, r_.value, "([], [])")
+    except Exception:  # noqa: BLE001
+        pass
+    try:
+        mod, tree = _fresh("_reductions")
+        for a_ in (x for x in ast.walk(tree) if isinstance(x, ast.Assign) and ast.unparse(x.targets[0]) == "shuffle_by"):
+            yield "mutant", "revert:renamed-frame-key", "R12b", mod.rel, _splice(mod.source, a_.value, "split_by")
+    except Exception:  # noqa: BLE001
+        pass
+
     # ---- twins -------------------------------------------------------------------------------------
     def rename_local(modname, owner, fname, old, new):
         if owner:
